@@ -74,10 +74,14 @@ def oracle(sc, tr, extra):
         return ["exception %s escaped the iterator" % extra["escaped"]]
     tl = fam.timeline(sc, tr)
     close_attempted = False
+    close_written = False
     transport_failed = False
     for i, x in enumerate(tl):
+        if x["kind"] == "write" and x["frame"] and x["frame"]["op"] == 10 and not x["by_app"] and close_written:
+            out.append("the library wrote a Pong (%r) after the client's Close frame: once the client has sent its Close a Pong cannot be written and is to be dropped silently" % (x["frame"]["payload"][:20],))
         if x["kind"] == "write" and x["frame"] and x["frame"]["op"] == 8:
             close_attempted = True
+            close_written = close_written or bool(x["ok"])
         if x["kind"] == "write" and not x["ok"]:
             transport_failed = True
         if x["kind"] == "call" and x["action"] and x["action"][0] == "close" and x["result"] == 0:
